@@ -624,10 +624,12 @@ func (d *Driver) mostUpToDate() uint64 {
 		if perr != "" {
 			continue
 		}
-		voter := false
-		for _, v := range s.ConfState.GetVoters() {
-			if v == n.ID {
-				voter = true
+		voter := false // of either half of a joint configuration
+		for _, set := range [][]uint64{s.ConfState.GetVoters(), s.ConfState.GetVotersOutgoing()} {
+			for _, v := range set {
+				if v == n.ID {
+					voter = true
+				}
 			}
 		}
 		if !voter {
